@@ -89,7 +89,7 @@ class BatonExecutor:
     iteration of the main thread.  Decisions come from a seeded PRNG and are
     recorded (`trace`), or replayed from a recorded list."""
 
-    def __init__(self, rng=None, p_switch=0.3, replay=None, burst_at=None):
+    def __init__(self, rng=None, p_switch=0.3, replay=None, burst_at=None, worker_burst_at=None):
         import threading
 
         self.threading = threading
@@ -99,6 +99,10 @@ class BatonExecutor:
         # burst style (depth-1 pre-emption): the loop thread hands over at
         # its burst_at-th fs event and the worker then runs to completion
         self.burst_at = burst_at
+        # worker-burst: a worker is parked at its worker_burst_at-th fs event and stays parked
+        # until the loop thread has nothing left to do (the other request has been served)
+        self.worker_burst_at = worker_burst_at
+        self.worker_events = 0
         self.main_events = 0
         self.trace = []
         self.workers = []
@@ -117,6 +121,20 @@ class BatonExecutor:
         if self.replay is not None:
             d = self.replay.pop(0) if self.replay else 0
             d = d if d <= n_choices else 0
+        elif self.worker_burst_at is not None:
+            if label.startswith("worker:"):
+                self.worker_events += 1
+                d = 1 if self.worker_events == self.worker_burst_at else 0
+                if d:
+                    self.worker_parked_at_burst = True
+            elif label == "loop-idle":
+                d = 1
+            elif label == "loop-iteration":
+                # start the worker as soon as it exists; once it is parked at its burst
+                # point it stays parked until the loop has nothing left to do
+                d = 0 if getattr(self, "worker_parked_at_burst", False) else 1
+            else:
+                d = 0
         elif self.burst_at is not None:
             if label.startswith("loop:"):
                 self.main_events += 1
